@@ -11,6 +11,7 @@ import (
 	"time"
 
 	netty "github.com/go-netty/go-netty"
+	"github.com/go-netty/go-netty/transport"
 	"github.com/go-netty/go-netty/utils"
 	"github.com/go-netty/go-netty/utils/pool/pbytes"
 	"nvharness/mock"
@@ -139,13 +140,36 @@ func genMsg(rng *rand.Rand) (string, func() netty.Message) {
 		}
 	case 2:
 		b := pl(sz())
-		return "u:" + hexOrDash(b), func() netty.Message { return bytes.NewBuffer(append([]byte(nil), b...)) }
+		k := 0
+		if rng.Intn(3) == 0 { // a carrier somebody has already read from: the message is what is left in it
+			k = rng.Intn(len(b) + 1)
+		}
+		return "u:" + hexOrDash(b[k:]), func() netty.Message {
+			u := bytes.NewBuffer(append([]byte(nil), b...))
+			u.Next(k)
+			return u
+		}
 	case 3:
 		b := pl(sz())
-		if rng.Intn(2) == 0 {
-			return "r:" + hexOrDash(b), func() netty.Message { return bytes.NewReader(append([]byte(nil), b...)) }
+		k := 0
+		if rng.Intn(3) == 0 {
+			k = rng.Intn(len(b) + 1)
+			if rng.Intn(3) == 0 {
+				k = len(b)
+			}
 		}
-		return "r:" + hexOrDash(b), func() netty.Message { return strings.NewReader(string(b)) }
+		if rng.Intn(2) == 0 {
+			return "r:" + hexOrDash(b[k:]), func() netty.Message {
+				r := bytes.NewReader(append([]byte(nil), b...))
+				r.Seek(int64(k), io.SeekStart)
+				return r
+			}
+		}
+		return "r:" + hexOrDash(b[k:]), func() netty.Message {
+			r := strings.NewReader(string(b))
+			r.Seek(int64(k), io.SeekStart)
+			return r
+		}
 	case 4:
 		b := pl(sz() % 2000)
 		return "S:" + hexOrDash(b), func() netty.Message { return string(b) }
@@ -226,13 +250,21 @@ func runC14(seed int64, count int) {
 	for cs := 0; cs < count; cs++ {
 		spec, mk := genMsg(rng)
 		emit("#case c14-%d", cs)
-		for _, mode := range []string{"sync", "async"} {
+		modes := []string{"sync", "async"}
+		if rng.Intn(2) == 0 {
+			modes = append(modes, "syncbuf") // synchronous channel over the library's write-buffered transport
+		}
+		for _, mode := range modes {
 			pl := netty.NewPipeline()
 			tr := mock.NewTransport()
 			var ch netty.Channel
+			var btr transport.Transport
 			dexec := &deferExec{}
 			if mode == "sync" {
 				ch = netty.NewChannel()(int64(cs), context.Background(), pl, tr, goExec{})
+			} else if mode == "syncbuf" {
+				btr = transport.NewTransport(tr, 0, []int{16, 512, 4096, 100000}[rng.Intn(4)])
+				ch = netty.NewChannel()(int64(cs), context.Background(), pl, btr, goExec{})
 			} else {
 				// queue large enough for every chunk of the message: the sender stays parked meanwhile
 				ch = netty.NewAsyncWriteChannel(256, false)(int64(cs), context.Background(), pl, tr, dexec)
@@ -242,6 +274,9 @@ func runC14(seed int64, count int) {
 			status := guard(func() { pl.FireChannelWrite(msg) })
 			if status == "panic" {
 				status = "raise"
+				if btr != nil {
+					btr.Flush() // what a failed write leaves in the buffer is not the property's concern
+				}
 			}
 			if mode == "async" {
 				scribble(msg) // the caller reuses its buffer before the (stalled) sender has run
